@@ -486,3 +486,26 @@ def _(u):
     u.prove("beamhook.forced-action", AND(seen["stepped"]["action"].at(r) == starts.at(r), strat._attrs["actions"][0].at(r) == starts.at(r)))
     u.prove("beamhook.initial-scores-zero", AND(_is_zero(strat._attrs["parent_beam_logprobs"], r, 0), _is_zero(strat._attrs["logprobs"][0], r, n)))
     u.prove("beamhook.initial-parent-zero", AND(len(strat._attrs["beam_path"]) == 1, strat._attrs["beam_path"][0].at(r) == 0))
+
+
+def _graph_start_nodes(u, relpath, cls):
+    B, K, N = u.dims("B K N")
+    td = SymTD({"action_mask": u.tensor("action_mask", (B, N), "b")}, (B,))
+    sel = u.run(relpath, f"{cls}.select_start_nodes", td, K)
+    b = u.idx((B,), "b")
+    j, j2 = u.idx((K, K), "j j2")
+    same_tensor(u, "start.shape", sel, (K * B,), lambda r: sel.at(r))
+    u.prove("start.formula", sel.at(j * B + b) == j % N)
+    u.prove("start.in-range", AND(sel.at(j * B + b) >= 0, sel.at(j * B + b) < N))
+    u.prove("start.distinct-per-instance", IMPL(AND(K <= N, j != j2), sel.at(j * B + b) != sel.at(j2 * B + b)))
+    u.canary("start.instance-major", sel.at(b * K + j) == j % N)
+
+
+@unit("flp.select_start_nodes", file="rl4co/envs/graph/flp/env.py", func="FLPEnv.select_start_nodes", props=("C12", "C10"))
+def _(u):
+    _graph_start_nodes(u, "rl4co/envs/graph/flp/env.py", "FLPEnv")
+
+
+@unit("mcp.select_start_nodes", file="rl4co/envs/graph/mcp/env.py", func="MCPEnv.select_start_nodes", props=("C12", "C10"))
+def _(u):
+    _graph_start_nodes(u, "rl4co/envs/graph/mcp/env.py", "MCPEnv")
